@@ -21,34 +21,46 @@ structure WrapCfg where
 
 def utf8Len (s : Str) : Nat := Text.utf8Len s
 
+/-- the token loop of `rebuild_value` (lossless.rs:1287-1293): an INDENT in front of every token
+    that follows a NEWLINE; returns the nodes and `last_was_newline` -/
+def rbGo (indentation : Nat) : List Tok → Bool → List DNode × Bool
+  | [], lastNl => ([], lastNl)
+  | t :: ts, lastNl =>
+    ((if lastNl then [Node.tok .INDENT (List.replicate indentation ' ')] else []) ++ [tk t]
+      ++ (rbGo indentation ts (t.1 == .NEWLINE)).1, (rbGo indentation ts (t.1 == .NEWLINE)).2)
+
+def rbFirstLineLen (tokens : List Tok) (keyLen : Nat) : Nat :=
+  ((tokens.takeWhile fun t => t.1 != .NEWLINE).map fun t => utf8Len t.2).sum + keyLen + 2
+
+def rbHasNewline (tokens : List Tok) : Bool := tokens.any fun t => t.1 == .NEWLINE
+
+def rbFits (tokens : List Tok) (keyLen : Nat) (maxLen : Option Nat) : Bool :=
+  match maxLen with
+  | some mll => decide (rbFirstLineLen tokens keyLen ≤ mll)
+  | none => false
+
+def rbFirstIsHash (tokens : List Tok) : Bool :=
+  match tokens.find? (fun t => t.1 != .NEWLINE && t.1 != .WHITESPACE) with
+  | some t => t.2.head? == some '#'
+  | none => false
+
+def rbStrip (tokens : List Tok) : List Tok :=
+  tokens.dropWhile fun t => t.1 == .NEWLINE || t.1 == .WHITESPACE
+
+def rbClose (lastNl : Bool) : List DNode := if lastNl then [] else [Node.tok .NEWLINE ['\n']]
+
 /-- `rebuild_value`: the tokens appended to the ENTRY after KEY and COLON -/
 def rebuildValue (tokens : List Tok) (keyLen indentation : Nat) (immediate : Bool)
     (maxLen : Option Nat) : List DNode :=
-  let firstLineLen :=
-    ((tokens.takeWhile fun t => t.1 != .NEWLINE).map fun t => utf8Len t.2).sum + keyLen + 2
-  let hasNewline := tokens.any fun t => t.1 == .NEWLINE
-  let fits := match maxLen with
-    | some mll => decide (firstLineLen ≤ mll)
-    | none => false
-  if fits && !hasNewline then
+  if rbFits tokens keyLen maxLen && !rbHasNewline tokens then
     -- just copy the tokens; the value fits into one line
     tokens.map tk ++ [Node.tok .NEWLINE ['\n']]
+  else if immediate && rbHasNewline tokens && !rbFirstIsHash tokens then
+    Node.tok .NEWLINE ['\n'] :: (rbGo indentation (rbStrip tokens) true).1
+      ++ rbClose (rbGo indentation (rbStrip tokens) true).2
   else
-    let firstIsHash : Bool :=
-      match tokens.find? (fun t => t.1 != .NEWLINE && t.1 != .WHITESPACE) with
-      | some t => t.2.head? == some '#'
-      | none => false
-    let lead : DNode × Bool :=
-      if immediate && hasNewline && !firstIsHash then (Node.tok .NEWLINE ['\n'], true) else (Node.tok .WHITESPACE [' '], false)
-    let stripped := tokens.dropWhile fun t => t.1 == .NEWLINE || t.1 == .WHITESPACE
-    let rec go (ts : List Tok) (lastNl : Bool) : List DNode × Bool :=
-      match ts with
-      | [] => ([], lastNl)
-      | t :: ts' =>
-        let r := go ts' (t.1 == .NEWLINE)
-        ((if lastNl then [Node.tok .INDENT (List.replicate indentation ' ')] else []) ++ [tk t] ++ r.1, r.2)
-    let body := go stripped lead.2
-    lead.1 :: body.1 ++ (if body.2 then [] else [Node.tok .NEWLINE ['\n']])
+    Node.tok .WHITESPACE [' '] :: (rbGo indentation (rbStrip tokens) false).1
+      ++ rbClose (rbGo indentation (rbStrip tokens) false).2
 
 /-- tokens of a child list if every child is a token -/
 def allTokens : List DNode → Option (List Tok)
@@ -70,48 +82,59 @@ def withNewlines : List Tok → List DNode
   | [] => []
   | t :: ts => (if t.1 = .COMMENT then [tk t, Node.tok .NEWLINE ['\n']] else [tk t]) ++ withNewlines ts
 
+/-- kinds that may not occur among an entry's children (`unreachable!()`) -/
+def ewBadKinds (cs : List DNode) : Bool :=
+  cs.any fun c => c.kind == .EMPTY_LINE || c.kind == .ENTRY || c.kind == .ROOT || c.kind == .PARAGRAPH
+
+/-- KEY and COLON are re-emitted as they are met -/
+def headOf (c : DNode) : Option DNode :=
+  match c with
+  | .tok .KEY t => some (Node.tok .KEY t)
+  | .tok .COLON _ => some (Node.tok .COLON [':'])
+  | .node .COLON _ => some (Node.tok .COLON [':'])
+  | _ => none
+
+def ewIndent (cfg : WrapCfg) (cs : List DNode) : Nat :=
+  match cfg.indentation with
+  | .spaces n => n
+  | .fieldNameLength =>
+    match (cs.find? (isTokOf .KEY)).map tokTextOf with
+    | some k => utf8Len k
+    | none => 1
+
+def contentKinds (c : DNode) : Bool :=
+  c.kind == .ERROR || c.kind == .COMMENT || c.kind == .VALUE || c.kind == .WHITESPACE || c.kind == .NEWLINE
+
+/-- the value part: ERROR / COMMENT / VALUE / WHITESPACE / NEWLINE children, trailing whitespace
+    and newlines stripped -/
+def ewContent (cs : List DNode) : List DNode :=
+  dropTrailing (fun c => c.kind == .NEWLINE || c.kind == .WHITESPACE) (cs.filter contentKinds)
+
+/-- the tokens handed to `rebuild_value` (`none`: `into_token().unwrap()` / `key().unwrap()` panics) -/
+def ewTokens (fmt : Option (Str → Str → Str)) (e : DNode) : Option (List Tok) :=
+  match fmt with
+  | some f =>
+    if !((ewContent e.children).any fun c => c.kind == .ERROR || c.kind == .COMMENT) then
+      match entryKey e with
+      | some k =>
+        some (lexLines (Text.splitOn '\n'
+          (f k ((ewContent e.children).filterMap fun c => match c with | .tok _ t => some t | _ => none).flatten)))
+      | none => none
+    else allTokens (ewContent e.children)
+  | none => allTokens (ewContent e.children)
+
+def ewKeyLen (e : DNode) : Nat := match entryKey e with | some k => utf8Len k | none => 0
+
 /-- `Entry::wrap_and_sort`; `fmt` = the value formatter `(key, value) ↦ text` -/
 def entryWrap (cfg : WrapCfg) (fmt : Option (Str → Str → Str)) (e : DNode) : Option DNode :=
-  let cs := e.children
-  -- kinds that may not occur among an entry's children
-  if cs.any (fun c => c.kind == .EMPTY_LINE || c.kind == .ENTRY || c.kind == .ROOT || c.kind == .PARAGRAPH) then none
-  -- `text.unwrap()` on a KEY that is not a token cannot happen: KEY is a token kind
+  if ewBadKinds e.children then none
+  else if ewIndent cfg e.children = 0 then none  -- assert!(indentation > 0)
   else
-    let heads : List DNode := cs.filterMap fun c =>
-      match c with
-      | .tok .KEY t => some (Node.tok .KEY t)
-      | .tok .COLON _ => some (Node.tok .COLON [':'])
-      | .node .COLON _ => some (Node.tok .COLON [':'])
-      | _ => none
-    let firstKey : Option Str := (cs.find? (isTokOf .KEY)).map tokTextOf
-    let indentation : Nat := match cfg.indentation with
-      | .spaces n => n
-      | .fieldNameLength => match firstKey with
-        | some k => utf8Len k
-        | none => 1
-    if indentation = 0 then none  -- assert!(indentation > 0)
-    else
-      let content := cs.filter fun c =>
-        c.kind == .ERROR || c.kind == .COMMENT || c.kind == .VALUE || c.kind == .WHITESPACE || c.kind == .NEWLINE
-      let content := dropTrailing (fun c => c.kind == .NEWLINE || c.kind == .WHITESPACE) content
-      let plain : Option (List Tok) := allTokens content
-      let tokens : Option (List Tok) :=
-        match fmt with
-        | some f =>
-          if !(content.any fun c => c.kind == .ERROR || c.kind == .COMMENT) then
-            -- concat of the token texts (nodes are skipped by `filter_map(as_token)`)
-            let concat := (content.filterMap fun c => match c with | .tok _ t => some t | _ => none).flatten
-            match entryKey e with
-            | some k => some (lexLines (Text.splitOn '\n' (f k concat)))
-            | none => none  -- `self.key().as_ref().unwrap()`
-          else plain
-        | none => plain
-      match tokens with
-      | none => none
-      | some ts =>
-        let keyLen := match entryKey e with | some k => utf8Len k | none => 0
-        some (.node .ENTRY (heads ++ rebuildValue ts keyLen indentation cfg.immediateEmptyLine
-          cfg.maxLineLengthOneLiner))
+    match ewTokens fmt e with
+    | none => none
+    | some ts =>
+      some (.node .ENTRY (e.children.filterMap headOf ++
+        rebuildValue ts (ewKeyLen e) (ewIndent cfg e.children) cfg.immediateEmptyLine cfg.maxLineLengthOneLiner))
 
 /-- split the children of a node into (pending trivia, unit) groups -/
 def groupBy (isUnit : DNode → Bool) (isTrivia : DNode → Bool) :
